@@ -179,6 +179,41 @@ def run(fb, rep, tier):
         raise AnalysisBroken('R18.1 positive control (verif_ctl::g_counter written by bumps_global) did not fire')
     rep.extra['ir'] = {'modules': len(mods), 'functions': nfun, 'globals_listed': len(seen)}
 
+    # ------------------------------------------------------------------ R18.1b (AST: covers every template instantiated by U-inst)
+    rep.rule('R18.1b', 'function-local statics in library code are const and initialised from constants only (a value fixed by the first caller is state shared between solver objects)', floor=5)
+    ctl2 = set()
+    seen_sl = set()
+    for f in fb.funcs.values():
+        for n in f.nodes:
+            if n.k != 'VarDecl' or not n.x.get('st'):
+                continue
+            isctl = f.name.startswith('verif_ctl::')
+            is_const = n.t.startswith('const ') or ' const' in n.t.split('[')[0]
+            dyn = []
+            for x in n.walk():
+                if x.i == n.i:
+                    continue
+                if x.k == 'CXXThisExpr' or (x.k == 'DeclRefExpr' and x.dk in ('parm', 'local')) or (x.k == 'MemberExpr' and x.dk == 'field'):
+                    dyn.append(x)
+            key = '%s|static %s' % (re.sub(r'<.*', '', f.name.replace('soplex::', '')) + '::' + f.short if False else f.name.replace('soplex::', '')[:80], n.n)
+            if key in seen_sl:
+                continue
+            seen_sl.add(key)
+            wh = '%s:%d' % (f.file, n.l)
+            if isctl:
+                if not is_const or dyn:
+                    ctl2.add(f.short)
+                continue
+            if not is_const:
+                rep.bad('R18.1b', key, wh, 'mutable function-local static `%s %s`: one object shared by all solver objects and threads' % (n.t[:40], n.n))
+            elif dyn:
+                rep.bad('R18.1b', key, wh, 'static `%s` is initialised from %s: its value is fixed by whichever solver object calls first and then used by all others' % (n.n, render(dyn[0])[:40]))
+            else:
+                rep.ok('R18.1b', key, wh, 'const, constant initialiser')
+    if not {'static_buffer_writer', 'static_from_argument'} <= ctl2:
+        raise AnalysisBroken('R18.1b positive controls did not fire (%s)' % sorted(ctl2))
+    rep.ok('R18.1b', 'control|static_buffer_writer,static_from_argument', 'units/controls.cpp', 'positive controls fire', nontrivial=False)
+
     # ------------------------------------------------------------------ R18.2
     rep.rule('R18.2', 'no call to a non-reentrant / process-wide-state C library function in library code', floor=1)
     hits = {}
